@@ -1,6 +1,7 @@
 import QmiModel.Lemmas.C12
 import QmiModel.Lemmas.C12Conc
 import QmiModel.Lemmas.C12Calls
+import QmiModel.Lemmas.C12Race
 /-!
 # C12 — context lifecycle: unique names, clean failure, stop reclaims everything
 
@@ -174,6 +175,45 @@ theorem stop_releases_each_once {c : Ctx} (h : WF c) (ha : c.active = true) (hb 
     rw [hnd.count, if_pos hm]
   · intro i hi
     rw [hrel, List.count_append, List.count_eq_zero_of_not_mem hi, Nat.add_zero]
+
+/-- what the release steps run by `stop()` do, per category: the event list of `stop()` is exactly "stop handlers, then
+for every remaining object in creation order: unregister, release (`relEvents`: an open instrument only *warns* — its
+transport stays open and is recorded in `leftOpen`; an unjoined task is stopped and its thread joined; a raising
+release step, or the `join()` of a task whose body raised, is swallowed), join the worker" — and `stop()` still
+returns normally.  If no instrument is open at `stop()`, no transport is left open. -/
+theorem stop_release_effects {c : Ctx} (h : WF c) (ha : c.active = true) (hb : firstBase c.stopH 0 = none) :
+    (step c .stop).1.log = (List.range c.stopH.length).map Ev.handler ++ stopEvents c.mgrs ∧
+    (step c .stop).1.leftOpen = c.leftOpen ++ c.mgrs.flatMap leftOpenOf ∧
+    ((∀ o ∈ c.mgrs, o.kind = .instr → o.isOpen = false) → (step c .stop).1.leftOpen = c.leftOpen) ∧
+    (∀ o ∈ c.mgrs, o.kind = .task → o.ts ≠ .joined → Ev.tstop o.id ∈ (step c .stop).1.log) := by
+  have h0 : WF { c with log := [] } := h.congr rfl rfl rfl rfl rfl
+  have e : step c .stop = _ := stop_ok h0 ha hb
+  rw [e]
+  refine ⟨by simp, rfl, ?_, ?_⟩
+  · intro hcl
+    show c.leftOpen ++ c.mgrs.flatMap leftOpenOf = c.leftOpen
+    have : c.mgrs.flatMap leftOpenOf = [] := by
+      rw [List.flatMap_eq_nil_iff]
+      intro o ho
+      unfold leftOpenOf
+      cases hk : o.kind <;> simp [hk]
+      exact hcl o ho hk
+    rw [this, List.append_nil]
+  · intro o ho hk hj
+    show Ev.tstop o.id ∈ [] ++ (List.range c.stopH.length).map Ev.handler ++ stopEvents c.mgrs
+    apply List.mem_append_right
+    have : ∀ (ms : List Obj), o ∈ ms → Ev.tstop o.id ∈ stopEvents ms := by
+      intro ms
+      induction ms with
+      | nil => intro hm; cases hm
+      | cons a r ih =>
+        intro hm
+        simp only [stopEvents, List.mem_append]
+        rcases List.mem_cons.1 hm with rfl | hm
+        · left; right
+          simp [relEvents, hk, hj]
+        · right; exact ih hm
+    exact this _ ho
 
 /-- over every history, with every fault: no release step ever runs twice, and no live object has been released -/
 theorem released_at_most_once (t : Bool) (ops : List Op) :
@@ -565,58 +605,97 @@ theorem stopped_behind_qmis_back (p : Proc) (c : Ctx) (hc : p.single = some c) (
   obtain ⟨d, hd, hsd⟩ := h3
   exact ⟨d, hd, by simp only [Ctx.residue, Residue.empty, hsd.h_empty, hsd.m_empty, hsd.map_empty, hsd.conns_empty, hsd.router_down]⟩
 
-/-! ## `stop()` racing `make_rpc_object()` from another thread (layer C, all schedules) -/
+/-! ## `stop()` racing `make_rpc_object()` from another thread (layer C: every population, every schedule) -/
+
+/-- **`stop ‖ make`, in general.**  For *every* population present at `stop()` (any well-formed active context: any
+number of RPC objects, open instruments, tasks in any state, any release faults, any `Exception`-raising stop
+handlers), every `make` running in another thread (any kind, any name — fresh or taken —, constructor failing or not),
+and **every schedule**: both threads finish within `5 + 2·(objects + 1) + 2` steps and the outcome is clean —
+`stop()` returned normally; object map, handler map, threads and sockets are empty and the context is inactive; the
+maker got `ok` or an exception; every object that existed or was constructed was released exactly once.
+(Inductive invariant `CInv` over the interleaved system + a rank that every step lowers: `Lemmas/C12Race.lean`.) -/
+theorem stop_make_any_population {c : Ctx} (h : WF c) (ha : c.active = true) (hb : firstBase c.stopH 0 = none)
+    (a : MakeArgs) (sched : List Bool) (fuel : Nat) (hf : 5 + 2 * (c.objMap.length + 1) + 2 ≤ fuel) :
+    ((crun a (cinit c) sched fuel).outcome).clean = true := by
+  have hd := done_of_fuel a fuel (cinit c) sched (by simp only [crank, cinit, mRank, sRank, mAdd]; omega)
+  rw [Bool.and_eq_true] at hd
+  exact clean_of_done (cinv_crun fuel _ _ (cinv_init h ha hb a)) hd.1 hd.2
+
+/-- the same for every reachable state: after any history, with any faults -/
+theorem stop_make_reachable (t : Bool) (ops : List Op) (ha : (run (Ctx.init t) ops).active = true)
+    (hb : firstBase (run (Ctx.init t) ops).stopH 0 = none) (a : MakeArgs) (sched : List Bool) :
+    ((crun a (cinit (run (Ctx.init t) ops)) sched
+        (5 + 2 * ((run (Ctx.init t) ops).objMap.length + 1) + 2)).outcome).clean = true :=
+  stop_make_any_population (wf_run (wf_init t) ops) ha hb a sched _ (Nat.le_refl _)
 
 /-- an active context holding only `$context` -/
 def raceCtx : Ctx := populated false []
 def raceArgs : MakeArgs := { k := .rpc, n := 4, ctorF := false, relF := false, runB := .loop }
-def raceArgsF : MakeArgs := { k := .task, n := 4, ctorF := true, relF := true, runB := .raise }
 
-private theorem race_half_true : ∀ s ∈ allScheds 10,
-    ((crun raceArgs (cinit raceCtx) (true :: s) 11).outcome).clean = true := by
+example : WF (populated true [.make .task 1 true false true .raise, .tstart 1, .make .instr 2 true false false .loop, .iopen 2,
+      .addH .exc]) ∧
+    (populated true [.make .task 1 true false true .raise, .tstart 1, .make .instr 2 true false false .loop, .iopen 2,
+      .addH .exc]).active = true ∧
+    ((crun raceArgs (cinit (populated true [.make .task 1 true false true .raise, .tstart 1,
+      .make .instr 2 true false false .loop, .iopen 2, .addH .exc])) [true, false, false, true, false] 15).outcome).make
+        = some (.exc .invalidOp) :=
+  ⟨wf_run (wf_init _) _, by decide, by decide⟩
+
+/-! ## two makers racing for the same name -/
+
+def mmArgs1 : MakeArgs := { k := .rpc, n := 4, ctorF := false, relF := false, runB := .loop }
+def mmArgs2 : MakeArgs := { k := .task, n := 4, ctorF := false, relF := true, runB := .loop }
+def mmArgs3 : MakeArgs := { k := .instr, n := 4, ctorF := true, relF := false, runB := .loop }
+
+/-- exactly one maker wins the name: one `ok`, one `QMI_DuplicateNameException`; the name refers to one live object;
+the loser left nothing -/
+def C2State.oneWinner (st : C2State) : Bool :=
+  ((mResult st.m1 == some .ok && mResult st.m2 == some (.exc .duplicate)) ||
+   (mResult st.m1 == some (.exc .duplicate) && mResult st.m2 == some .ok)) &&
+  (st.c.objMap.filter (fun e => e.1 == 4)).length == 1 && (st.c.handlers.filter (fun e => e.1 == 4)).length == 1 &&
+  st.c.mgrs.length == 2 && st.c.objMap.all (fun e => e.2.isSome) && st.c.released.isEmpty
+
+private theorem mm_same_name_table : ∀ s ∈ allScheds 8, (c2run mmArgs1 mmArgs2 (c2init raceCtx) s 8).oneWinner = true := by
   decide +kernel
 
-private theorem race_half_false : ∀ s ∈ allScheds 10,
-    ((crun raceArgs (cinit raceCtx) (false :: s) 11).outcome).clean = true := by
+/-- **Uniqueness under concurrency**: two threads making the same name at the same time, under every schedule
+(8 decisions suffice: 4 steps each): exactly one succeeds, the other is refused as duplicate and leaves nothing. -/
+theorem name_unique_concurrent (sched : List Bool) :
+    (c2run mmArgs1 mmArgs2 (c2init raceCtx) sched 8).oneWinner = true := by
+  have norm : ∀ (k : Nat) (st : C2State) (l : List Bool),
+      c2run mmArgs1 mmArgs2 st l k = c2run mmArgs1 mmArgs2 st (normSched k l) k := by
+    intro k
+    induction k with
+    | zero => intro st l; rfl
+    | succ k ih =>
+      intro st l
+      simp only [c2run, normSched, List.headD_cons, List.tail_cons]
+      exact ih _ l.tail
+  rw [norm]; exact mm_same_name_table _ (normSched_mem 8 sched)
+
+/-- a maker whose constructor fails while the other wants the same name: the name ends up held by at most one live
+object and is never left reserved; a refused duplicate is possible while the failing maker still holds the reservation -/
+def C2State.noResidue (st : C2State) : Bool :=
+  st.m1.isDone && st.m2.isDone && st.c.objMap.all (fun e => e.2.isSome) &&
+  (st.c.objMap.filter (fun e => e.1 == 4)).length ≤ 1 &&
+  (st.c.objMap.filter (fun e => e.1 == 4)).length == (if mResult st.m1 == some .ok then 1 else 0) &&
+  st.c.mgrs.length == st.c.objMap.length && st.c.handlers.length == st.c.objMap.length
+
+private theorem mm_failed_ctor_table : ∀ s ∈ allScheds 9, (c2run mmArgs1 mmArgs3 (c2init raceCtx) s 9).noResidue = true := by
   decide +kernel
 
-/-- Under **every** schedule of `stop()` (context thread) and `make` (another thread) both finish within 11 steps and
-the outcome is clean: `stop()` returned; object map, handler map, threads, sockets are empty; the maker got `ok` or
-an exception; every object that existed or was constructed was released exactly once.  (The handler is registered
-inside the second locked block of `_internal_make_rpc_object`, so `stop()` never collects an unregistered manager;
-on the pinned tree the schedule `[M,M,M,S,S,S,S,S,M]` made `stop()` raise `QMI_UnknownNameException`.) -/
-theorem stop_make_all_schedules (sched : List Bool) :
-    ((crun raceArgs (cinit raceCtx) sched 11).outcome).clean = true := by
-  refine forall_sched raceArgs (cinit raceCtx) 11 (fun st => st.outcome.clean = true) ?_ sched
-  intro s hs
-  simp only [allScheds, List.mem_flatMap] at hs
-  obtain ⟨l, hl, hs⟩ := hs
-  have hl' : l ∈ allScheds 10 := by simpa only [allScheds, List.mem_flatMap] using hl
-  simp only [List.mem_cons, List.not_mem_nil, or_false] at hs
-  rcases hs with rfl | rfl
-  · exact race_half_true l hl'
-  · exact race_half_false l hl'
-
-private theorem racef_half_true : ∀ s ∈ allScheds 10,
-    ((crun raceArgsF (cinit raceCtx) (true :: s) 11).outcome).clean = true := by
-  decide +kernel
-
-private theorem racef_half_false : ∀ s ∈ allScheds 10,
-    ((crun raceArgsF (cinit raceCtx) (false :: s) 11).outcome).clean = true := by
-  decide +kernel
-
-/-- the same for a maker whose constructor fails (the reservation is rolled back, the failed object is not released) -/
-theorem stop_make_failed_ctor_all_schedules (sched : List Bool) :
-    ((crun raceArgsF (cinit raceCtx) sched 11).outcome).clean = true := by
-  refine forall_sched raceArgsF (cinit raceCtx) 11 (fun st => st.outcome.clean = true) ?_ sched
-  intro s hs
-  simp only [allScheds, List.mem_flatMap] at hs
-  obtain ⟨l, hl, hs⟩ := hs
-  have hl' : l ∈ allScheds 10 := by simpa only [allScheds, List.mem_flatMap] using hl
-  simp only [List.mem_cons, List.not_mem_nil, or_false] at hs
-  rcases hs with rfl | rfl
-  · exact racef_half_true l hl'
-  · exact racef_half_false l hl'
+theorem make_make_failed_ctor_all_schedules (sched : List Bool) :
+    (c2run mmArgs1 mmArgs3 (c2init raceCtx) sched 9).noResidue = true := by
+  have norm : ∀ (k : Nat) (st : C2State) (l : List Bool),
+      c2run mmArgs1 mmArgs3 st l k = c2run mmArgs1 mmArgs3 st (normSched k l) k := by
+    intro k
+    induction k with
+    | zero => intro st l; rfl
+    | succ k ih =>
+      intro st l
+      simp only [c2run, normSched, List.headD_cons, List.tail_cons]
+      exact ih _ l.tail
+  rw [norm]; exact mm_failed_ctor_table _ (normSched_mem 9 sched)
 
 /-- layer A's `make` *is* the sequential composition of the layer-C steps (the maker running alone) -/
 theorem make_is_sequential_composition (c : Ctx) (a : MakeArgs) :
